@@ -274,6 +274,9 @@ init_run(Params *p)
 	ip.calloc_fn = sim_calloc;
 	ip.free_fn   = sim_free;
 	sim_stat("init_allocs", sim_alloc_count());
+	// the library may be initialised and finalised any number of times
+	int cycles = 1 + (int) p->draw("cycles", 0, 2);
+	for (int cycle = 0; cycle < cycles; cycle++) {
 	int rv = nng_init(&ip);
 	if (rv != 0) {
 		if (sim_alloc_fault_hit() == 0)
@@ -300,6 +303,7 @@ init_run(Params *p)
 	RETRY(nng_socket_close(b), "close");
 	nng_fini();
 	sim_alloc_check_balance("C20");
+	}
 }
 SCENARIO(c20_init, "C20", NULL, init_run);
 
